@@ -75,7 +75,9 @@ func parseConstraint(constraintStr string, ecosystem *Ecosystem) (*constraint, e
 		if err != nil {
 			return nil, fmt.Errorf("invalid version in caret constraint: %v", err)
 		}
-		return &constraint{operator: "^", version: parsedVersion, precision: 3}, nil
+		// Store precision info: ^0 and ^0.0 are wider than ^0.0.0
+		precision := countVersionComponents(version)
+		return &constraint{operator: "^", version: parsedVersion, precision: precision}, nil
 	}
 
 	// Handle tilde constraints: ~1.2.3, ~1.2, ~1
@@ -150,7 +152,7 @@ func convertWildcardToStandardConstraint(constraintStr string, ecosystem *Ecosys
 		if err != nil {
 			return nil, fmt.Errorf("invalid wildcard constraint: %v", err)
 		}
-		return &constraint{operator: "^", version: parsedVersion, precision: 3}, nil
+		return &constraint{operator: "^", version: parsedVersion, precision: 1}, nil
 
 	case 2: // 1.2.* is equivalent to ~1.2.0
 		normalizedVersion := normalizePartialVersion(baseVersion)
@@ -198,7 +200,7 @@ func satisfiesConstraint(version *Version, c *constraint) bool {
 	case "<=":
 		return version.Compare(c.version) <= 0
 	case "^":
-		return satisfiesCaretConstraint(version, c.version)
+		return satisfiesCaretConstraint(version, c.version, c.precision)
 	case "~":
 		return satisfiesTildeConstraint(version, c.version, c.precision)
 	default:
@@ -207,8 +209,10 @@ func satisfiesConstraint(version *Version, c *constraint) bool {
 }
 
 // satisfiesCaretConstraint checks if version satisfies caret constraint (^1.2.3)
-// Caret allows changes that do not modify the left-most non-zero digit
-func satisfiesCaretConstraint(version, constraint *Version) bool {
+// Caret allows changes that do not modify the left-most non-zero digit.
+// Components that were not written are free: ^0 := >=0.0.0 <1.0.0 and
+// ^0.0 := >=0.0.0 <0.1.0, while ^0.0.0 := >=0.0.0 <0.0.1
+func satisfiesCaretConstraint(version, constraint *Version, precision int) bool {
 	// Must be >= constraint version
 	if version.Compare(constraint) < 0 {
 		return false
@@ -219,8 +223,8 @@ func satisfiesCaretConstraint(version, constraint *Version) bool {
 		return false
 	}
 
-	// If major > 0, minor and patch can be anything >= constraint
-	if constraint.major > 0 {
+	// If major > 0 (or only the major was given), minor and patch can be anything >= constraint
+	if constraint.major > 0 || precision == 1 {
 		return true
 	}
 
@@ -229,8 +233,8 @@ func satisfiesCaretConstraint(version, constraint *Version) bool {
 		return false
 	}
 
-	// If major == 0 and minor > 0, patch can be anything >= constraint
-	if constraint.minor > 0 {
+	// If major == 0 and minor > 0 (or no patch was given), patch can be anything >= constraint
+	if constraint.minor > 0 || precision == 2 {
 		return true
 	}
 
